@@ -244,7 +244,10 @@ def _driver(spec):
       deny        list of directory prefixes for which os.access(..., W_OK) answers False
       kill        {"match": substring of the cache file name, "frac": 0..1 | "bytes": k | "tail": k}: the dump proxy
                   writes only a prefix of the pickle stream to the real file object and os._exit(1)s
-      slow        {"chunks": n, "sleep": s}: the dump proxy writes the stream in n pieces with pauses (a pre-empted writer)
+      slow        {"chunks": n, "sleep": s, "hold": h}: the dump proxy writes the stream in n pieces with pauses (a pre-empted
+                  writer) and pauses h seconds after the last byte, before the caller closes and publishes the file
+      barrier     {"dir": d, "n": k, "timeout": s}: the first dump of the process waits until k processes have arrived at
+                  their first dump (or s seconds passed): cold starts whose cache writes overlap although their loads differ in length
       ready / go  touch ``ready`` after the imports, then spin until ``go`` exists (racing cold starts)
       delay       seconds to sleep after ``go``
     """
@@ -277,6 +280,7 @@ def _driver(spec):
 
     kill = spec.get("kill")
     slow = spec.get("slow")
+    state = {"dumps": 0, "writing": None}
     instrument = bool(evf or deny or kill or slow)  # C18 sequences run the untouched code
 
     class PickleProxy(object):
@@ -299,7 +303,19 @@ def _driver(spec):
             name = str(getattr(f, "name", "?"))
             stream = real_pickle.dumps(obj, *a, **k)
             emit(ev="dump", file=name, size=len(stream))
-            if kill and kill.get("match", "") in os.path.basename(name):
+            bar = spec.get("barrier")
+            if bar and not state["dumps"]:
+                open(os.path.join(bar["dir"], "arrived-%d" % os.getpid()), "w").close()
+                t_end = time.time() + float(bar.get("timeout", 60))
+                while time.time() < t_end and sum(1 for x in os.listdir(bar["dir"]) if x.startswith("arrived-")) < int(bar["n"]):
+                    time.sleep(0.005)
+                emit(ev="barrier", waited=round(float(bar.get("timeout", 60)) - (t_end - time.time()), 3),
+                     arrived=sum(1 for x in os.listdir(bar["dir"]) if x.startswith("arrived-")))
+            state["dumps"] += 1
+            # the file being written is identified by the name of the file object or, independently of how the
+            # implementation names its temporary files, by the model file whose cache write is in progress
+            if kill and (("match" in kill and kill["match"] in os.path.basename(name))
+                         or ("source" in kill and kill["source"] == state["writing"])):
                 if "bytes" in kill:
                     n = min(len(stream), int(kill["bytes"]))
                 elif "tail" in kill:
@@ -317,6 +333,7 @@ def _driver(spec):
                     f.write(stream[i : i + step])
                     f.flush()
                     time.sleep(float(slow.get("sleep", 0.05)))
+                time.sleep(float(slow.get("hold", 0)))
                 return
             f.write(stream)
 
@@ -336,7 +353,11 @@ def _driver(spec):
 
     def write_in_cache(self, filepath):
         emit(ev="write", file=str(filepath))
-        return orig_write(self, filepath)
+        state["writing"] = os.path.basename(str(filepath))
+        try:
+            return orig_write(self, filepath)
+        finally:
+            state["writing"] = None
 
     if instrument:
         MM._get_cached = get_cached
